@@ -104,9 +104,8 @@ def run_async(ctx, fn_body, args, intercept, may_inline=None):
 def runner(ctx):
     ck, facts = ctx.check, ctx.facts
     try:
-        rf = facts.method(HOOK, "run_functions")
-        rb = facts.method(HOOK, "run_before")
-        ra = facts.method(HOOK, "run_after")
+        rfp, rbp, rap, _mh, _em = ctx.roles.hook_roles()
+        rf, rb, ra = facts.bodies[rfp], facts.bodies[rbp], facts.bodies[rap]
     except KeyError as e:
         ck.violation("C12.chain", "hook-runner", str(e))
         return
